@@ -21,6 +21,11 @@ def run(rep, tier, seed):
         if rng.random() < 0.1:
             est = est[:-1]
         cases.append({"fam": "ape", "rel": rng.choice(["full", "trans", "rotpart", "rad", "deg", "pdist"]), "ref": ref, "est": est})
+    if tier == "thorough":          # long sequences (the statement quantifies over lengths up to 10^4)
+        for n, rel in ((2000, "full"), (5000, "trans"), (10000, "deg")):
+            ref = [{"r": rng.randint(1, 24), "p": [rng.randint(-9, 9) for _ in range(3)]} for _ in range(n)]
+            est = [{"r": rng.randint(1, 24), "p": [rng.randint(-9, 9) for _ in range(3)]} for _ in range(n)]
+            cases.append({"fam": "ape", "rel": rel, "ref": ref, "est": est})
     # relative rotations within 1e-12 of 0 and of pi, and on the whole degree grid (code -> spec)
     from drivers import c09
     aa = []
